@@ -5,6 +5,7 @@ From QPM Require Import Parametric.
 Import ListNotations.
 
 Section Hist.
+Set Default Proof Using "Type".
 Variable G : Type.
 Variable K : Type.
 Notation lmc := (lmc G K).
@@ -47,9 +48,12 @@ Proof. revert i. induction l as [|z l IH]; intros [|i]; simpl; try reflexivity. 
 Lemma map_nth_error' {A B} (f : A -> B) i l : nth_error (map f l) i = option_map f (nth_error l i).
 Proof. revert i. induction l as [|z l IH]; intros [|i]; simpl; auto. Qed.
 
-Definition combine_c (c d : lmc) : option lmc :=
-  match extend_c G K (empty_c G K (nq G K c)) c with
-  | Some e => extend_c G K e d
+Definition nrot (c : lmc) : nat := count_rots G K (sgates G K (abs G K c)).
+Definition snrot (c : sc) : nat := count_rots G K (sgates G K c).
+
+Definition combine_c (c d : lmc) (next : pid) : option lmc :=
+  match extend_c G K (empty_c G K (nq G K c)) c next with
+  | Some e => extend_c G K e d (next + nrot c)
   | None => None
   end.
 Definition s_combine (c d : sc) : option sc :=
@@ -58,6 +62,8 @@ Definition s_combine (c d : sc) : option sc :=
   | None => None
   end.
 
+(* the allocation counter is a device of the model (object identity in Python): extend and + always
+   advance it by the number of parametric gates they may have to re-create *)
 Definition step (w : world) (o : op) : world :=
   match o with
   | ONew n => mkW (wnext w) (wcs w ++ [empty_c G K n])
@@ -86,16 +92,16 @@ Definition step (w : world) (o : op) : world :=
       end
   | OExtend i j =>
       match nth_error (wcs w) i, nth_error (wcs w) j with
-      | Some c, Some d => match extend_c G K c d with
-                          | Some c' => mkW (wnext w) (upd i c' (wcs w))
+      | Some c, Some d => match extend_c G K c d (wnext w) with
+                          | Some c' => mkW (wnext w + nrot d) (upd i c' (wcs w))
                           | None => w
                           end
       | _, _ => w
       end
   | OCombine i j =>
       match nth_error (wcs w) i, nth_error (wcs w) j with
-      | Some c, Some d => match combine_c c d with
-                          | Some c' => mkW (wnext w) (wcs w ++ [c'])
+      | Some c, Some d => match combine_c c d (wnext w) with
+                          | Some c' => mkW (wnext w + nrot c + nrot d) (wcs w ++ [c'])
                           | None => w
                           end
       | _, _ => w
@@ -144,7 +150,7 @@ Definition sstep (w : sworld) (o : op) : sworld :=
   | OExtend i j =>
       match nth_error (swcs w) i, nth_error (swcs w) j with
       | Some c, Some d => match s_extend G K c d with
-                          | Some c' => mkSW (swnext w) (upd i c' (swcs w))
+                          | Some c' => mkSW (swnext w + snrot d) (upd i c' (swcs w))
                           | None => w
                           end
       | _, _ => w
@@ -152,7 +158,7 @@ Definition sstep (w : sworld) (o : op) : sworld :=
   | OCombine i j =>
       match nth_error (swcs w) i, nth_error (swcs w) j with
       | Some c, Some d => match s_combine c d with
-                          | Some c' => mkSW (swnext w) (swcs w ++ [c'])
+                          | Some c' => mkSW (swnext w + snrot c + snrot d) (swcs w ++ [c'])
                           | None => w
                           end
       | _, _ => w
@@ -164,7 +170,7 @@ Definition sstep (w : sworld) (o : op) : sworld :=
       end
   | OTranspile i t =>
       match nth_error (swcs w) i with
-      | Some c => mkSW (swnext w + count_rots G K (tr t (sgates G K c)))
+      | Some c => mkSW (swnext w + snrot (mkS G K (snq G K c) (sins G K c) (tr t (sgates G K c))))
                        (swcs w ++ [mkS G K (snq G K c) (sins G K c) (tr t (sgates G K c))])
       | None => w
       end
@@ -172,297 +178,153 @@ Definition sstep (w : sworld) (o : op) : sworld :=
 
 Definition abs_w (w : world) : sworld := mkSW (wnext w) (map (abs G K) (wcs w)).
 
+(* every live circuit satisfies the circuit invariant (in particular: every parametric gate has its own
+   gate parameter) and only mentions identities that have been allocated *)
 Definition winv (w : world) : Prop :=
-  (forall c, In c (wcs w) -> cinv G K c /\ below G K (wnext w) c)
-  /\ (forall c d, In c (wcs w) -> In d (wcs w) -> consistent G K c d).
+  forall c, In c (wcs w) -> cinv G K c /\ below G K (wnext w) c.
 
-Lemma NoDup_app_intro' {A} (l1 l2 : list A) :
-  NoDup l1 -> NoDup l2 -> (forall x, In x l1 -> In x l2 -> False) -> NoDup (l1 ++ l2).
-Proof.
-  induction l1 as [|a l1 IH]; intros H1 H2 Hd; simpl; [exact H2|].
-  inversion H1 as [|? ? Ha H1']; subst. constructor.
-  - intros Hin. apply in_app_or in Hin. destruct Hin as [Hin|Hin]; [contradiction|]. apply (Hd a); simpl; auto.
-  - apply IH; auto. intros x Hx1 Hx2. apply (Hd x); simpl; auto.
-Qed.
-
-(* ---- preservation lemmas for one circuit *)
 Lemma below_mono n m c : n <= m -> below G K n c -> below G K m c.
 Proof. intros H [A B]. split; intros p Hp; [apply A in Hp|apply B in Hp]; lia. Qed.
-
-Lemma cinv_empty n : cinv G K (empty_c G K n).
-Proof. split; [intros o []|]. split; [constructor|intros o f []]. Qed.
 Lemma below_empty m n : below G K m (empty_c G K n).
 Proof. split; intros p []. Qed.
-
-Lemma cinv_add_params c n k : cinv G K c -> below G K n c -> cinv G K (add_params G K c (seq n k)).
-Proof.
-  intros [A [B C]] [Hlt _]. split; [exact A|]. split.
-  - simpl. apply NoDup_app_intro'; auto using seq_NoDup.
-    intros p Hp Hq. apply in_seq in Hq. apply Hlt in Hp. lia.
-  - intros o f Hof p Hp. simpl. apply in_or_app. left. exact (C o f Hof p Hp).
-Qed.
-
-Lemma below_add_params c n k : below G K n c -> below G K (n + k) (add_params G K c (seq n k)).
-Proof.
-  intros [A B]. split; simpl.
-  - intros p Hp. apply in_app_or in Hp. destruct Hp as [Hp|Hp]; [apply A in Hp; lia|apply in_seq in Hp; lia].
-  - intros o Ho. apply B in Ho. lia.
-Qed.
-
-Lemma cinv_add_fixed c g : cinv G K c -> cinv G K (add_fixed G K c g).
-Proof.
-  intros [A BC]. split; [|exact BC]. intros o Ho. simpl in Ho. rewrite body_outs_app in Ho.
-  apply in_app_or in Ho. destruct Ho as [Ho|Ho]; [apply A; exact Ho|simpl in Ho; contradiction].
-Qed.
-
-Lemma add_pg_shape c k qs f out c' : add_pg G K c k qs f out = Some c' ->
-  c' = mkLM G K (nq G K c) (ins G K c) (outs G K c ++ [out]) ((out, f) :: pmap G K c) (body G K c ++ [PG G k qs out])
-  /\ (forall p, In p (fparams K f) -> In p (ins G K c)).
-Proof.
-  unfold add_pg. destruct (forallb _ (fparams K f)) eqn:E; [|discriminate]. intros [= <-]. split; [reflexivity|].
-  intros p Hp. rewrite forallb_forall in E. apply memb_In. apply E. exact Hp.
-Qed.
-
-Lemma cinv_add_pg c k qs f out c' : cinv G K c -> add_pg G K c k qs f out = Some c' -> cinv G K c'.
-Proof.
-  intros [A [B C]] H. destruct (add_pg_shape _ _ _ _ _ _ H) as [-> Hf]. split; [|split; [exact B|]]; simpl.
-  - intros o Ho. rewrite body_outs_app in Ho. apply in_app_or in Ho.
-    destruct (Nat.eqb_spec o out) as [->|Hne]; [exists f; reflexivity|].
-    destruct Ho as [Ho|Ho]; [apply A; exact Ho|]. simpl in Ho. destruct Ho as [E|[]]. congruence.
-  - intros o f' [E|Hin] p Hp; [injection E as <- <-; apply Hf; exact Hp|exact (C o f' Hin p Hp)].
-Qed.
-Lemma below_add_pg c k qs f n c' : below G K n c -> add_pg G K c k qs f n = Some c' -> below G K (S n) c'.
-Proof.
-  intros [A B] H. destruct (add_pg_shape _ _ _ _ _ _ H) as [-> _]. split; simpl.
-  - intros p Hp. apply A in Hp. lia.
-  - intros o [<-|Ho]; [lia|apply B in Ho; lia].
-Qed.
-
-Lemma cinv_add_unbound_pg c k qs n : cinv G K c -> below G K n c -> cinv G K (add_unbound_pg G K c k qs n).
-Proof.
-  intros [A [B C]] [Hlt _]. split; [|split]; simpl.
-  - intros o Ho. rewrite body_outs_app in Ho. apply in_app_or in Ho.
-    destruct (Nat.eqb_spec o n) as [->|Hne]; [exists (Alias K n); reflexivity|].
-    destruct Ho as [Ho|Ho]; [apply A; exact Ho|]. simpl in Ho. destruct Ho as [E|[]]. congruence.
-  - apply NoDup_app_intro'; auto; [constructor; [intros []|constructor]|].
-    intros p Hp [<-|[]]. apply Hlt in Hp. lia.
-  - intros o f' [E|Hin] p Hp.
-    + injection E as <- <-. simpl in Hp. destruct Hp as [<-|[]]. apply in_or_app. right. left. reflexivity.
-    + apply in_or_app. left. exact (C o f' Hin p Hp).
-Qed.
-Lemma below_add_unbound_pg c k qs n : below G K n c -> below G K (S n) (add_unbound_pg G K c k qs n).
-Proof.
-  intros [A B]. split; simpl.
-  - intros p Hp. apply in_app_or in Hp. destruct Hp as [Hp|[<-|[]]]; [apply A in Hp; lia|lia].
-  - intros o [<-|Ho]; [lia|apply B in Ho; lia].
-Qed.
-
-Lemma extend_shape c d c' : extend_c G K c d = Some c' ->
-  c' = mkLM G K (nq G K c) (dedup (ins G K c ++ ins G K d)) (outs G K c ++ outs G K d)
-            (pmap G K d ++ pmap G K c) (body G K c ++ body G K d).
-Proof. unfold extend_c. destruct (Nat.eqb _ _); [|discriminate]. intros [= <-]. reflexivity. Qed.
-
-Lemma cinv_extend c d c' : cinv G K c -> cinv G K d -> extend_c G K c d = Some c' -> cinv G K c'.
-Proof.
-  intros [Ac [Bc Cc]] [Ad [Bd Cd]] H. rewrite (extend_shape _ _ _ H). split; [|split]; simpl.
-  - intros o Ho. rewrite body_outs_app in Ho. rewrite lookup_app. apply in_app_or in Ho.
-    destruct (lookup K o (pmap G K d)) as [f|] eqn:E; [exists f; reflexivity|].
-    destruct Ho as [Ho|Ho]; [apply Ac; exact Ho|]. destruct (Ad o Ho) as [f Hf]. congruence.
-  - apply (dedup_NoDup).
-  - intros o f Hin p Hp. apply dedup_In. apply in_or_app. apply in_app_or in Hin.
-    destruct Hin as [Hin|Hin]; [right; exact (Cd o f Hin p Hp)|left; exact (Cc o f Hin p Hp)].
-Qed.
-Lemma below_extend n c d c' : below G K n c -> below G K n d -> extend_c G K c d = Some c' -> below G K n c'.
-Proof.
-  intros [Ac Bc] [Ad Bd] H. rewrite (extend_shape _ _ _ H). split; simpl.
-  - intros p Hp. apply (proj1 (dedup_In _ _)) in Hp. apply in_app_or in Hp. destruct Hp; auto.
-  - intros o Ho. unfold keys in Ho. rewrite map_app in Ho. apply in_app_or in Ho. destruct Ho; auto.
-Qed.
-Lemma extend_entries c d c' o f : extend_c G K c d = Some c' -> In (o, f) (pmap G K c') ->
-  In (o, f) (pmap G K c) \/ In (o, f) (pmap G K d).
-Proof. intros H. rewrite (extend_shape _ _ _ H). simpl. intros Hin. apply in_app_or in Hin. tauto. Qed.
-
-(* consistency is about entries only *)
-Lemma consistent_entries c e :
-  (forall o f, In (o, f) (pmap G K c) -> exists c0, (forall f', In (o, f') (pmap G K e) -> f = f') /\ c0 = c) ->
-  consistent G K c e.
-Proof. intros H o f f' Hc He. destruct (H o f Hc) as [_ [Hx _]]. apply Hx. exact He. Qed.
-Lemma consistent_sym c d : consistent G K c d -> consistent G K d c.
-Proof. intros H o f f' Hd Hc. symmetry. exact (H o f' f Hc Hd). Qed.
-
-
-(* every entry of a circuit of the next world is an entry of some circuit of this world, or the one
-   fresh entry (wnext w, F) *)
-Definition src (w : world) (F : list (pid * afun)) (c : lmc) : Prop :=
-  forall o f, In (o, f) (pmap G K c) ->
-  (exists e, In e (wcs w) /\ In (o, f) (pmap G K e)) \/ (wnext w <= o /\ In (o, f) F).
-
-Lemma src_old w F c : In c (wcs w) -> src w F c.
-Proof. intros H o f Hin. left. exists c. auto. Qed.
-
-Lemma consistent_src w F a b : winv w -> functional K F -> src w F a -> src w F b -> consistent G K a b.
-Proof.
-  intros [Hc Hcons] HF Ha Hb o f f' Hf Hf'.
-  destruct (Ha o f Hf) as [[e [He Hin]]|Ef]; destruct (Hb o f' Hf') as [[e' [He' Hin']]|Ef'].
-  - exact (Hcons e e' He He' o f f' Hin Hin').
-  - exfalso. destruct (Hc e He) as [_ [_ Hk]]. specialize (Hk o (in_keys K o f _ Hin)). destruct Ef'. lia.
-  - exfalso. destruct (Hc e' He') as [_ [_ Hk]]. specialize (Hk o (in_keys K o f' _ Hin')). destruct Ef. lia.
-  - exact (HF o f f' (proj2 Ef) (proj2 Ef')).
-Qed.
-
-Lemma functional_single o (f : afun) : functional K [(o, f)].
-Proof. intros o' f1 f2 [E1|[]] [E2|[]]. congruence. Qed.
-Lemma functional_nil : functional K [].
-Proof. intros o' f1 f2 []. Qed.
-
-Lemma winv_build w n' F cs' : winv w -> functional K F -> wnext w <= n' ->
-  (forall c, In c cs' -> cinv G K c /\ below G K n' c /\ src w F c) -> winv (mkW n' cs').
-Proof.
-  intros Hw HF Hle H. split; simpl.
-  - intros c Hc. destruct (H c Hc) as [A [B _]]. auto.
-  - intros c d Hc Hd. destruct (H c Hc) as [_ [_ Sc]]. destruct (H d Hd) as [_ [_ Sd]].
-    exact (consistent_src w F c d Hw HF Sc Sd).
-Qed.
-
-Lemma old_ok w n' F c : winv w -> wnext w <= n' -> In c (wcs w) -> cinv G K c /\ below G K n' c /\ src w F c.
-Proof.
-  intros [Hc _] Hle Hin. destruct (Hc c Hin) as [A B]. split; [exact A|]. split; [exact (below_mono _ _ _ Hle B)|].
-  apply src_old. exact Hin.
-Qed.
-
-Lemma fresh_key w c : winv w -> In c (wcs w) -> ~ In (wnext w) (keys K (pmap G K c)).
-Proof. intros [Hc _] Hin Hk. destruct (Hc c Hin) as [_ [_ B]]. specialize (B _ Hk). lia. Qed.
-
-Lemma combine_props w c d c' : winv w -> In c (wcs w) -> In d (wcs w) -> combine_c c d = Some c' ->
-  s_combine (abs G K c) (abs G K d) = Some (abs G K c') /\
-  cinv G K c' /\ below G K (wnext w) c' /\ (forall F, src w F c').
-Proof.
-  intros Hw Hc Hd. unfold combine_c, s_combine.
-  destruct (extend_c G K (empty_c G K (nq G K c)) c) as [e|] eqn:Ee; [|discriminate]. intros Hd'.
-  destruct Hw as [Hci Hcons]. destruct (Hci c Hc) as [Ic Bc]. destruct (Hci d Hd) as [Id Bd].
-  assert (Ie : cinv G K e) by (eapply cinv_extend; [apply cinv_empty|exact Ic|exact Ee]).
-  assert (Be : below G K (wnext w) e) by (eapply below_extend; [apply below_empty|exact Bc|exact Ee]).
-  assert (Se : forall o f, In (o, f) (pmap G K e) -> In (o, f) (pmap G K c)).
-  { intros o f Hin. destruct (extend_entries _ _ _ _ _ Ee Hin) as [[]|H]; exact H. }
-  assert (Ced : consistent G K e d).
-  { intros o f f' Hf Hf'. exact (Hcons c d Hc Hd o f f' (Se o f Hf) Hf'). }
-  split; [|split; [|split]].
-  - change (snq G K (abs G K c)) with (nq G K c).
-    change (s_empty G K (nq G K c)) with (abs G K (empty_c G K (nq G K c))).
-    rewrite (abs_extend G K _ _ e (cinv_empty _) Ic); [|intros o f f' []|exact Ee].
-    apply (abs_extend G K e d c' Ie Id Ced Hd').
-  - exact (cinv_extend _ _ _ Ie Id Hd').
-  - exact (below_extend _ _ _ _ Be Bd Hd').
-  - intros F o f Hin. left. destruct (extend_entries _ _ _ _ _ Hd' Hin) as [H|H].
-    + exists c. split; [exact Hc|exact (Se o f H)].
-    + exists d. auto.
-Qed.
 
 Lemma in_app_single {A} (l : list A) x y : In y (l ++ [x]) -> In y l \/ y = x.
 Proof. intros H. apply in_app_or in H. destruct H as [H|[H|[]]]; auto. Qed.
 
-Theorem step_refines w o : winv w -> abs_w (step w o) = sstep (abs_w w) o /\ winv (step w o).
+Lemma winv_upd w n' i c' : winv w -> wnext w <= n' -> cinv G K c' -> below G K n' c' ->
+  winv (mkW n' (upd i c' (wcs w))).
 Proof.
-  intros Hw. pose proof Hw as [Hci Hcons].
+  intros Hw Hle Hc Hb c0 Hc0. simpl in Hc0. apply upd_In in Hc0. destruct Hc0 as [->|Hc0]; [auto|].
+  destruct (Hw c0 Hc0) as [A B]. split; [exact A|exact (below_mono _ _ _ Hle B)].
+Qed.
+Lemma winv_app w n' c' : winv w -> wnext w <= n' -> cinv G K c' -> below G K n' c' ->
+  winv (mkW n' (wcs w ++ [c'])).
+Proof.
+  intros Hw Hle Hc Hb c0 Hc0. simpl in Hc0. apply in_app_single in Hc0. destruct Hc0 as [Hc0| ->]; [|auto].
+  destruct (Hw c0 Hc0) as [A B]. split; [exact A|exact (below_mono _ _ _ Hle B)].
+Qed.
+
+Lemma below_extend n c d c' : below G K n c -> below G K n d ->
+  ins G K c' = dedup (ins G K c ++ ins G K d) ->
+  (forall o, In o (outs G K c') -> In o (outs G K c) \/ In o (outs G K d) \/ n <= o < n + nrot d) ->
+  below G K (n + nrot d) c'.
+Proof.
+  intros [Ac Bc] [Ad Bd] Hi Ho. split.
+  - intros p Hp. rewrite Hi in Hp. apply (proj1 (dedup_In _ _)) in Hp. apply in_app_or in Hp.
+    destruct Hp as [Hp|Hp]; [apply Ac in Hp|apply Ad in Hp]; lia.
+  - intros o Hin. destruct (Ho o Hin) as [H|[H|H]]; [apply Bc in H|apply Bd in H|]; lia.
+Qed.
+
+Lemma combine_ok w c d c' : winv w -> In c (wcs w) -> In d (wcs w) -> combine_c c d (wnext w) = Some c' ->
+  s_combine (abs G K c) (abs G K d) = Some (abs G K c') /\ cinv G K c' /\ below G K (wnext w + nrot c + nrot d) c'.
+Proof.
+  intros Hw Hc Hd. unfold combine_c, s_combine.
+  destruct (Hw c Hc) as [Ic Bc]. destruct (Hw d Hd) as [Id Bd].
+  destruct (extend_c G K (empty_c G K (nq G K c)) c (wnext w)) as [e|] eqn:Ee; [|discriminate]. intros Hd'.
+  destruct (extend_ok G K _ _ _ _ (cinv_empty G K _) Ic (fun o (H : In o []) => match H with end) Ee) as [Hs [Ie [Hie Hoe]]].
+  assert (Be : below G K (wnext w + nrot c) e).
+  { apply (below_extend (wnext w) (empty_c G K (nq G K c)) c e (below_empty _ _) Bc Hie Hoe). }
+  destruct (extend_ok G K e d (wnext w + nrot c) c' Ie Id (proj2 Be) Hd') as [Hs' [Ic' [Hic' Hoc']]].
+  split; [|split; [exact Ic'|]].
+  - change (snq G K (abs G K c)) with (nq G K c).
+    change (s_empty G K (nq G K c)) with (abs G K (empty_c G K (nq G K c))). rewrite Hs. exact Hs'.
+  - apply (below_extend (wnext w + nrot c) e d c' Be (below_mono _ _ _ (Nat.le_add_r _ _) Bd) Hic' Hoc').
+Qed.
+Lemma combine_none w c d : winv w -> In c (wcs w) -> In d (wcs w) -> combine_c c d (wnext w) = None ->
+  s_combine (abs G K c) (abs G K d) = None.
+Proof.
+  intros Hw Hc Hd. unfold combine_c, s_combine.
+  destruct (Hw c Hc) as [Ic Bc]. destruct (Hw d Hd) as [Id Bd].
+  change (snq G K (abs G K c)) with (nq G K c).
+  change (s_empty G K (nq G K c)) with (abs G K (empty_c G K (nq G K c))).
+  destruct (extend_c G K (empty_c G K (nq G K c)) c (wnext w)) as [e|] eqn:Ee.
+  - destruct (extend_ok G K _ _ _ _ (cinv_empty G K _) Ic (fun o (H : In o []) => match H with end) Ee) as [Hs [Ie [Hie Hoe]]].
+    assert (Be : below G K (wnext w + nrot c) e).
+    { apply (below_extend (wnext w) (empty_c G K (nq G K c)) c e (below_empty _ _) Bc Hie Hoe). }
+    rewrite Hs. intros Hn. exact (extend_none G K e d _ Ie Id (proj2 Be) Hn).
+  - intros _. rewrite (extend_none G K _ c _ (cinv_empty G K _) Ic (fun o (H : In o []) => match H with end) Ee). reflexivity.
+Qed.
+
+Theorem step_refines w o : winv w -> abs_w (step w o) = sstep (abs_w w) o /\ winv (step w o).
+Proof using G K tr tr_closed.
+  intros Hw.
   destruct o as [n|i k|i g|i k qs f|i k qs|i j|i j|i|i t]; unfold step, sstep, abs_w; cbn [swnext swcs wnext wcs].
   - (* ONew *) split; [rewrite map_app; reflexivity|].
-    apply (winv_build w _ []); [exact Hw|apply functional_nil|lia|]. intros c Hc. apply in_app_single in Hc.
-    destruct Hc as [Hc| ->]; [apply old_ok; auto|]. split; [apply cinv_empty|]. split; [apply below_empty|intros o f []].
+    apply winv_app; auto; [apply cinv_empty|apply below_empty].
   - (* OAddParams *) rewrite map_nth_error'. destruct (nth_error (wcs w) i) as [c|] eqn:En; cbn [option_map]; [|auto].
-    pose proof (nth_error_In _ _ En) as Hin. destruct (Hci c Hin) as [Ic Bc].
+    pose proof (nth_error_In _ _ En) as Hin. destruct (Hw c Hin) as [Ic Bc].
     split; [cbn [swnext swcs wnext wcs]; rewrite map_upd; reflexivity|].
-    apply (winv_build w _ []); [exact Hw|apply functional_nil|lia|]. intros c0 Hc0. apply upd_In in Hc0.
-    destruct Hc0 as [->|Hc0]; [|apply old_ok; auto; lia].
-    split; [apply cinv_add_params; auto|]. split; [apply below_add_params; auto|].
-    intros o f Hof. left. exists c. auto.
+    apply winv_upd; auto; [lia| |].
+    + apply cinv_add_params; auto using seq_NoDup. intros p Hp Hq. apply in_seq in Hp. destruct Bc as [A _]. apply A in Hq. lia.
+    + destruct Bc as [A B]. split; simpl.
+      * intros p Hp. apply in_app_or in Hp. destruct Hp as [Hp|Hp]; [apply A in Hp; lia|apply in_seq in Hp; lia].
+      * intros o Ho. apply B in Ho. lia.
   - (* OAddFixed *) rewrite map_nth_error'. destruct (nth_error (wcs w) i) as [c|] eqn:En; cbn [option_map]; [|auto].
-    pose proof (nth_error_In _ _ En) as Hin. destruct (Hci c Hin) as [Ic Bc].
+    pose proof (nth_error_In _ _ En) as Hin. destruct (Hw c Hin) as [Ic Bc].
     split; [cbn [swnext swcs wnext wcs]; rewrite map_upd, abs_add_fixed; reflexivity|].
-    apply (winv_build w _ []); [exact Hw|apply functional_nil|lia|]. intros c0 Hc0. apply upd_In in Hc0.
-    destruct Hc0 as [->|Hc0]; [|apply old_ok; auto].
-    split; [apply cinv_add_fixed; auto|]. split; [exact Bc|]. intros o f Hof. left. exists c. auto.
+    apply winv_upd; auto. apply cinv_add_fixed; auto.
   - (* OAddPG *) rewrite map_nth_error'. destruct (nth_error (wcs w) i) as [c|] eqn:En; cbn [option_map]; [|auto].
-    pose proof (nth_error_In _ _ En) as Hin. destruct (Hci c Hin) as [Ic Bc].
+    pose proof (nth_error_In _ _ En) as Hin. destruct (Hw c Hin) as [Ic Bc].
     destruct (add_pg G K c k qs f (wnext w)) as [c'|] eqn:Ea.
-    + rewrite (abs_add_pg G K c k qs f (wnext w) c' (fresh_key w c Hw Hin) Ic Ea).
+    + destruct (add_pg_ok G K c k qs f (wnext w) c' Ic (fresh_out G K c _ Bc) Ea) as [Hs Ic']. rewrite Hs.
       split; [cbn [swnext swcs wnext wcs]; rewrite map_upd; reflexivity|].
-      apply (winv_build w _ [(wnext w, f)]); [exact Hw|apply functional_single|lia|]. intros c0 Hc0. apply upd_In in Hc0.
-      destruct Hc0 as [->|Hc0]; [|apply old_ok; auto].
-      split; [exact (cinv_add_pg _ _ _ _ _ _ Ic Ea)|]. split; [exact (below_add_pg _ _ _ _ _ _ Bc Ea)|].
-      destruct (add_pg_shape _ _ _ _ _ _ Ea) as [-> _]. intros o f0 [E|Hof]; [right; injection E as <- <-; split; [lia|left; reflexivity]|].
-      left. exists c. auto.
+      apply winv_upd; auto. destruct (add_pg_shape G K _ _ _ _ _ _ Ea) as [-> _]. destruct Bc as [A B]. split; simpl.
+      * intros p Hp. apply A in Hp. lia.
+      * intros o Ho. apply in_app_single in Ho. destruct Ho as [Ho| ->]; [apply B in Ho; lia|lia].
     + rewrite (add_pg_none G K c k qs f (wnext w) Ea). auto.
   - (* OAddUnboundPG *) rewrite map_nth_error'. destruct (nth_error (wcs w) i) as [c|] eqn:En; cbn [option_map]; [|auto].
-    pose proof (nth_error_In _ _ En) as Hin. destruct (Hci c Hin) as [Ic Bc].
-    split; [cbn [swnext swcs wnext wcs]; rewrite map_upd, (abs_add_unbound_pg G K c k qs _ (fresh_key w c Hw Hin) Ic); reflexivity|].
-    apply (winv_build w _ [(wnext w, Alias K (wnext w))]); [exact Hw|apply functional_single|lia|]. intros c0 Hc0. apply upd_In in Hc0.
-    destruct Hc0 as [->|Hc0]; [|apply old_ok; auto].
-    split; [apply cinv_add_unbound_pg; auto|]. split; [apply below_add_unbound_pg; auto|].
-    intros o f0 [E|Hof]; [right; injection E as <- <-; split; [lia|left; reflexivity]|]. left. exists c. auto.
+    pose proof (nth_error_In _ _ En) as Hin. destruct (Hw c Hin) as [Ic Bc].
+    destruct (add_unbound_pg_ok G K c k qs (wnext w) Ic (fresh_out G K c _ Bc) (fresh_in G K c _ Bc)) as [Ha Ic'].
+    split; [cbn [swnext swcs wnext wcs]; rewrite map_upd, Ha; reflexivity|].
+    apply winv_upd; auto. destruct Bc as [A B]. split; simpl.
+    + intros p Hp. apply in_app_single in Hp. destruct Hp as [Hp| ->]; [apply A in Hp; lia|lia].
+    + intros o Ho. apply in_app_single in Ho. destruct Ho as [Ho| ->]; [apply B in Ho; lia|lia].
   - (* OExtend *) rewrite !map_nth_error'.
     destruct (nth_error (wcs w) i) as [c|] eqn:En; cbn [option_map]; [|auto].
     destruct (nth_error (wcs w) j) as [d|] eqn:Em; cbn [option_map]; [|auto].
     pose proof (nth_error_In _ _ En) as Hin. pose proof (nth_error_In _ _ Em) as Hjn.
-    destruct (Hci c Hin) as [Ic Bc]. destruct (Hci d Hjn) as [Id Bd].
-    destruct (extend_c G K c d) as [c'|] eqn:Ee.
-    + rewrite (abs_extend G K c d c' Ic Id (Hcons c d Hin Hjn) Ee).
+    destruct (Hw c Hin) as [Ic Bc]. destruct (Hw d Hjn) as [Id Bd].
+    destruct (extend_c G K c d (wnext w)) as [c'|] eqn:Ee.
+    + destruct (extend_ok G K c d (wnext w) c' Ic Id (proj2 Bc) Ee) as [Hs [Ic' [Hi Ho]]]. rewrite Hs.
       split; [cbn [swnext swcs wnext wcs]; rewrite map_upd; reflexivity|].
-      apply (winv_build w _ []); [exact Hw|apply functional_nil|lia|]. intros c0 Hc0. apply upd_In in Hc0.
-      destruct Hc0 as [->|Hc0]; [|apply old_ok; auto].
-      split; [exact (cinv_extend _ _ _ Ic Id Ee)|]. split; [exact (below_extend _ _ _ _ Bc Bd Ee)|].
-      intros o f Hof. left. destruct (extend_entries _ _ _ _ _ Ee Hof); [exists c|exists d]; auto.
-    + rewrite (extend_none G K c d Ee). auto.
+      apply winv_upd; auto; [lia|]. exact (below_extend (wnext w) c d c' Bc Bd Hi Ho).
+    + rewrite (extend_none G K c d (wnext w) Ic Id (proj2 Bc) Ee). auto.
   - (* OCombine *) rewrite !map_nth_error'.
     destruct (nth_error (wcs w) i) as [c|] eqn:En; cbn [option_map]; [|auto].
     destruct (nth_error (wcs w) j) as [d|] eqn:Em; cbn [option_map]; [|auto].
     pose proof (nth_error_In _ _ En) as Hin. pose proof (nth_error_In _ _ Em) as Hjn.
-    destruct (combine_c c d) as [c'|] eqn:Ec.
-    + destruct (combine_props w c d c' Hw Hin Hjn Ec) as [Hs [Ic' [Bc' Sc']]]. rewrite Hs.
+    destruct (combine_c c d (wnext w)) as [c'|] eqn:Ec.
+    + destruct (combine_ok w c d c' Hw Hin Hjn Ec) as [Hs [Ic' Bc']]. rewrite Hs.
       split; [cbn [swnext swcs wnext wcs]; rewrite map_app; reflexivity|].
-      apply (winv_build w _ []); [exact Hw|apply functional_nil|lia|]. intros c0 Hc0. apply in_app_single in Hc0.
-      destruct Hc0 as [Hc0| ->]; [apply old_ok; auto|]. auto.
-    + assert (Hn : s_combine (abs G K c) (abs G K d) = None).
-      { unfold combine_c in Ec. unfold s_combine.
-        change (snq G K (abs G K c)) with (nq G K c).
-        change (s_empty G K (nq G K c)) with (abs G K (empty_c G K (nq G K c))).
-        destruct (extend_c G K (empty_c G K (nq G K c)) c) as [e|] eqn:Ee.
-        - destruct (Hci c Hin) as [Ic Bc].
-          rewrite (abs_extend G K _ _ e (cinv_empty _) Ic); [|intros o f f' []|exact Ee]. apply extend_none. exact Ec.
-        - rewrite (extend_none G K _ _ Ee). reflexivity. }
-      rewrite Hn. auto.
+      apply winv_app; auto. lia.
+    + rewrite (combine_none w c d Hw Hin Hjn Ec). auto.
   - (* OCopy *) rewrite map_nth_error'. destruct (nth_error (wcs w) i) as [c|] eqn:En; cbn [option_map]; [|auto].
-    pose proof (nth_error_In _ _ En) as Hin.
+    pose proof (nth_error_In _ _ En) as Hin. destruct (Hw c Hin) as [Ic Bc].
     split; [cbn [swnext swcs wnext wcs]; rewrite map_app; reflexivity|].
-    apply (winv_build w _ []); [exact Hw|apply functional_nil|lia|]. intros c0 Hc0. apply in_app_single in Hc0.
-    destruct Hc0 as [Hc0| ->]; apply old_ok; auto.
+    apply winv_app; auto.
   - (* OTranspile *) rewrite map_nth_error'. destruct (nth_error (wcs w) i) as [c|] eqn:En; cbn [option_map]; [|auto].
-    pose proof (nth_error_In _ _ En) as Hin. destruct (Hci c Hin) as [Ic Bc].
+    pose proof (nth_error_In _ _ En) as Hin. destruct (Hw c Hin) as [Ic Bc].
     set (ret0 := mkLM G K (nq G K c) (ins G K c) [] [] []).
     assert (I0 : cinv G K ret0).
-    { destruct Ic as [_ [B _]]. split; [intros o []|]. split; [exact B|intros o f []]. }
-    destruct (build_ok G K (tr t (sgates G K (abs G K c))) ret0 (wnext w) I0) as [c' [Hb [Ha [Ic' [Hins [He Hfn]]]]]].
+    { constructor; simpl; [intros o []|exact (ci_ins G K c Ic)|intros o f []|reflexivity|constructor|intros o []]. }
+    destruct (build_ok G K (tr t (sgates G K (abs G K c))) ret0 (wnext w) I0) as [c' [Hb [Ha [Ic' [Hins He]]]]].
     + intros o [].
     + apply tr_closed. exact (abs_closed G K c Ic).
-    + apply functional_nil.
     + rewrite Hb. split.
       * cbn [swnext swcs wnext wcs]. rewrite map_app. cbn [map]. rewrite Ha. reflexivity.
-      * apply (winv_build w _ (pmap G K c')); [exact Hw|exact Hfn|lia|]. intros c0 Hc0. apply in_app_single in Hc0.
-        destruct Hc0 as [Hc0| ->]; [apply old_ok; auto; lia|]. split; [exact Ic'|]. split.
-        -- split.
-           ++ intros p Hp. rewrite Hins in Hp. destruct Bc as [A _]. apply A in Hp. lia.
-           ++ intros o Ho. unfold keys in Ho. apply in_map_iff in Ho. destruct Ho as [[o' f] [E Hof]]. simpl in E. subst o'.
-              destruct (He o f Hof) as [[]|H]. lia.
-        -- intros o f Hof. right. destruct (He o f Hof) as [[]|H]. split; [lia|exact Hof].
+      * apply winv_app; auto; [lia|]. split.
+        -- intros p Hp. rewrite Hins in Hp. destruct Bc as [A _]. apply A in Hp. lia.
+        -- intros o Ho. destruct (He o Ho) as [[]|H]. lia.
 Qed.
 
 Definition w0 : world := mkW 0 [].
 Lemma winv_w0 : winv w0.
-Proof. split; simpl; [intros c []|intros c d []]. Qed.
+Proof. intros c []. Qed.
 
 (* every history refines the abstract level and keeps the invariant *)
 Theorem history_refines ops :
   abs_w (fold_left step ops w0) = fold_left sstep ops (abs_w w0) /\ winv (fold_left step ops w0).
-Proof.
+Proof using G K tr tr_closed.
   assert (H : forall w, winv w -> abs_w (fold_left step ops w) = fold_left sstep ops (abs_w w) /\ winv (fold_left step ops w)).
   { induction ops as [|o ops IH]; intros w Hw; simpl; [auto|].
     destruct (step_refines w o Hw) as [Ha Hi]. rewrite <- Ha. apply IH. exact Hi. }
